@@ -367,7 +367,22 @@ class Sigma:
         sc = Obj(sccls, {}, fresh=True, label="scenario")
         mem = I.find_member(sccls, "__init__")
         I.ext_state.setdefault("sig", self)
-        I.call_function(mem[1], [sc, PyDict(d, fresh=False)], {"name": "scn", "generated": False})
+        n_obl = len(I.ctx.obligations)
+        try:
+            I.call_function(mem[1], [sc, PyDict(d, fresh=False)], {"name": "scn", "generated": False})
+        except Exception as e:      # noqa
+            from pyvc.values import EngineLimit
+            from pyvc.interp import PyExc, PathEnd
+            if isinstance(e, (PyExc, PathEnd)) or I.ext_state.get("verifying_scenario_init"):
+                raise
+            # the constructor on this tree is out of the engine's reach: the harness uses the POSTCONDITION of
+            # Scenario.__init__ instead (its own contract - ScenarioInit - is decided separately, by a bounded stand-in
+            # if need be): the fields the documented constructor sets, host numbers in the order of the host section
+            del I.ctx.obligations[n_obl:]
+            sc = Obj(sccls, {"scenario_dict": PyDict(d, fresh=False), "name": "scn", "generated": False,
+                             "_e_map": None, "_pe_map": None}, fresh=True, label="scenario")
+            sc.model_object = True
+            I.ext_state["scenario_ctor_out_of_reach"] = f"{type(e).__name__}: {str(e)[:100]}"
         sc.fresh = False
         sc.fields["host_num_map"] = self.host_num_map()
         I.ctx.writes[:] = [w for w in I.ctx.writes if not (w[0] == "field" and w[1] is sc)]
